@@ -1,7 +1,7 @@
 ---------------------------- MODULE MC_Grading ----------------------------
 EXTENDS Grading
 AllScripts == {"plain", "override", "override_twice", "suppress", "crashing", "formatter", "mocks", "sections",
-               "pools", "partial", "groups", "tifa_types", "classhook", "raiser_a", "raiser_b", "qpool", "plain_notifa"}
+               "pools", "partial", "groups", "tifa_types", "classhook", "raiser_a", "raiser_b", "qpool", "plain_notifa", "cover"}
 QuickScripts == {"plain", "override_twice", "suppress", "crashing", "sections", "pools", "mocks"}
 \* what each script of bind/grading.py dirties
 W == [s \in AllScripts |->
@@ -14,12 +14,13 @@ W == [s \in AllScripts |->
           [] s \in {"mocks", "raiser_a", "raiser_b"} -> {"feedback", "tooldata", "sandbox_mocks"}
           [] s = "sections" -> {"feedback", "tooldata", "sections", "hooks"}
           [] s = "pools" -> {"feedback", "tooldata", "pools"}
+          [] s = "cover" -> {"feedback", "tooldata", "tracer", "coverage_data"}   \* what the coverage tracer measured
           [] s = "qpool" -> {"feedback", "tooldata", "question_pools"}      \* the running count of question pools
           [] s = "partial" -> {"feedback", "tooldata", "hiddens"}
           [] s = "groups" -> {"feedback", "tooldata"}
           [] s = "tifa_types" -> {"feedback", "tooldata", "builtin_modules"}
           [] OTHER -> {"feedback", "tooldata"}]
-AllSubs == {"ok", "crash", "mathmut", "syntax", "unused", "parts", "mathy", "attrassign", "attrlit", "methodcall", "pltassign", "pltcall", "uselen", "realmut", "modset", "modsetT", "modget"}
+AllSubs == {"ok", "crash", "mathmut", "syntax", "unused", "parts", "mathy", "attrassign", "attrlit", "methodcall", "pltassign", "pltcall", "uselen", "realmut", "modset", "modsetT", "modget", "branch_if", "branch_else"}
 \* submissions whose analysis writes / reads the method tables of TIFA's value types
 \* ... and submissions that write / read TIFA's types of the builtin MODULES (attribute assignment on an imported module)
 SW == [s \in AllSubs |-> IF s \in {"attrassign", "attrlit"} THEN {"type_tables"}
@@ -41,8 +42,10 @@ R == [s \in AllScripts |-> Slots \ {"class_hooks"}]
 CodeClearResets == {"feedback", "suppressions", "hiddens", "hooks", "tooldata", "formatter", "overrides",
                     "sandbox_mocks", "tracer", "sections", "builtin_modules", "pools",
                     "type_tables", "question_pools",
-                    "fresh_modules"}     \* every execution ends by putting the module table back: what student code imported first is unloaded     \* every type VALUE copies its class' method table (Type.__init__), so nothing outlives the analysis
+                    "fresh_modules",
+                    "coverage_data"}     \* every execution ends by putting the module table back: what student code imported first is unloaded     \* every type VALUE copies its class' method table (Type.__init__), so nothing outlives the analysis
 PinnedClearResets == CodeClearResets \ {"pools", "question_pools"}
 SharedTables == CodeClearResets \ {"type_tables"}
 ModulesStay == CodeClearResets \ {"fresh_modules"}
+CoverageAccumulates == CodeClearResets \ {"coverage_data"}        \* one measurement object for the whole process
 =============================================================================
